@@ -32,8 +32,16 @@ class AbstractConstraint(object):
             self._testValue(value, idx)
 
         except error.ValueConstraintError:
+            try:
+                failure = '%r' % (sys.exc_info()[1],)
+
+            except ValueError:
+                # the refused value can be too long to be printed (CPython
+                # limits int -> str conversion): reporting must not fail
+                failure = '<%s>' % sys.exc_info()[1].__class__.__name__
+
             raise error.ValueConstraintError(
-                '%s failed at: %r' % (self, sys.exc_info()[1])
+                '%s failed at: %s' % (self, failure)
             )
 
     def __repr__(self):
